@@ -361,40 +361,46 @@ Fixpoint subseq_b (a b : list Z) : bool :=   (* a is a subsequence of b *)
 Definition count_true {A} (f : A -> bool) (l : list A) : Z := Z.of_nat (List.length (filter f l)).
 
 (* The property, clause by clause, for one request.  Families are (id, Encode-fails?) pairs. *)
-Definition spec_ok (i : hin (Z * bool)) (b : obs) : bool :=
+Definition counters_are (b : obs) (g e : Z) : bool :=
+  match b_counters b with None => true | Some (g', e') => (g' =? g) && (e' =? e) end.
+Definition no_cenc (b : obs) : bool := match b_cenc b with None => true | _ => false end.
+Definition spec_nfail (i : hin (Z * bool)) : Z :=
+  count_true (h_encfail i) (h_mfs i) + (if h_closefail i then 1 else 0).
+
+(* 500: plain uncompressed error text, no metrics, the gathering counter moved once *)
+Definition spec_err500 (b : obs) : bool :=
+  (b_status b =? 500) && b_plain b && negb (b_panic b) && counters_are b 1 0 && no_cenc b &&
+  match b_chunks b with [] => true | _ => false end.
+
+(* 200 in the negotiated encodings carrying gathered families only; all of them, and complete, if nothing failed *)
+Definition spec_served (i : hin (Z * bool)) (b : obs) : bool :=
   let ids := map fst (h_mfs i) in
-  let nfail := count_true (h_encfail i) (h_mfs i) + (if h_closefail i then 1 else 0) in
-  let offers := compressions (h_disable i) (h_offered i) (h_zstd i) in
-  let counters g e := match b_counters b with None => true | Some (g', e') => (g' =? g) && (e' =? e) end in
+  let nfail := spec_nfail i in
+  let g := if h_gerr i then 1 else 0 in
+  if negb (nfail =? 0) && (match h_policy i with PPanic => true | _ => false end) then b_panic b && counters_are b g 1 else
+  (b_status b =? 200) && negb (b_plain b) && negb (b_panic b) && b_ct_ok b && b_decomp_ok b &&
+  cenc_allowed (h_disable i) (compressions (h_disable i) (h_offered i) (h_zstd i)) (parse_accept (h_ae i)) (b_cenc b) &&
+  subseq_b (b_chunks b) ids &&
+  (if nfail =? 0 then zs_eqb (b_chunks b) ids && b_complete b && counters_are b g 0
+   else match h_policy i with
+        | PHttpError => counters_are b g 1
+        | _ => counters_are b g nfail && zs_eqb (b_chunks b) (map fst (filter (fun f => negb (h_encfail i f)) (h_mfs i)))
+        end).
+
+Definition spec_ok (i : hin (Z * bool)) (b : obs) : bool :=
   if (0 <? h_limit i) && (h_limit i <=? h_inflight i) then
     (* excess request: 503, nothing gathered *)
-    (b_status b =? 503) && (b_gathers b =? 0) && (b_done b =? 0) && negb (b_panic b) && counters 0 0 &&
-    match b_cenc b with None => true | _ => false end
+    (b_status b =? 503) && (b_gathers b =? 0) && (b_done b =? 0) && negb (b_panic b) && counters_are b 0 0 && no_cenc b
   else
   (b_gathers b =? 1) && (b_done b =? 1) &&
-  let g := if h_gerr i then 1 else 0 in
-  let err500 :=
-    (b_status b =? 500) && b_plain b && negb (b_panic b) && counters 1 0 &&
-    match b_cenc b with None => true | _ => false end && match b_chunks b with [] => true | _ => false end in
-  let served :=
-    (* a 200 in the negotiated encodings carrying gathered families only; all of them, and complete, if nothing failed *)
-    if negb (nfail =? 0) && (match h_policy i with PPanic => true | _ => false end) then b_panic b && counters g 1 else
-    (b_status b =? 200) && negb (b_plain b) && negb (b_panic b) && b_ct_ok b && b_decomp_ok b &&
-    cenc_allowed (h_disable i) offers (parse_accept (h_ae i)) (b_cenc b) &&
-    subseq_b (b_chunks b) ids &&
-    (if nfail =? 0 then zs_eqb (b_chunks b) ids && b_complete b && counters g 0
-     else match h_policy i with
-          | PHttpError => counters g 1
-          | _ => counters g nfail && zs_eqb (b_chunks b) (map fst (filter (fun f => negb (h_encfail i f)) (h_mfs i)))
-          end) in
   if h_gerr i then
     match h_policy i with
-    | PHttpError => err500
-    | PContinue => match h_mfs i with [] => err500 | _ => served end
-    | PPanic => b_panic b && counters 1 0
+    | PHttpError => spec_err500 b
+    | PContinue => match h_mfs i with [] => spec_err500 b | _ => spec_served i b end
+    | PPanic => b_panic b && counters_are b 1 0
     | POther => true
     end
-  else served.
+  else spec_served i b.
 
 (* projection of the model's answer onto the same observables *)
 Definition obs_of (i : hin (Z * bool)) (trailer_nonempty : bool) (counters : bool) (o : hout (Z * bool)) : obs :=
